@@ -2,6 +2,7 @@ package remote
 
 import (
 	"fmt"
+	"strings"
 	"time"
 
 	"github.com/anthdm/hollywood/actor"
@@ -289,6 +290,15 @@ func runC17StartStop(rc *core.RunCtx) {
 		} else {
 			wg.Wait()
 		}
+		// Start on the stopped remote must not bring the listener back
+		old := simrt.SetNode(2)
+		err := b.R.Start(b.E)
+		simrt.SetNode(old)
+		simrt.WaitQuiet(10 * time.Second)
+		if c, derr := simnet.DialSim(b.Addr); derr == nil {
+			c.Close()
+			rc.Violate("accepts-after-stop/start-after-stop", "after Stop().Wait(), a second Start (returned %v) made the node accept inbound connections again", err)
+		}
 	}
 	rc.Scen("stop callers=%d", nstop)
 	rc.Nontrivial = true
@@ -322,6 +332,10 @@ func runHostile(rc *core.RunCtx) {
 		}
 	}
 	// legitimate traffic 1 -> 2 before, during and after
+	// node 2 talks to node 1 once, so that it owns a stream writer (an internal
+	// actor a hostile peer can name as target)
+	w.doSend(sendOp{key: "warm", from: 2, to: 1, target: "rec/r0", kind: 0})
+	simrt.WaitQuiet(10 * time.Second)
 	legit := genOpsFrom(g, rc, 1, []int{2}, targets, 1, 6, false)
 	fin := runScripts(w, legit)
 
@@ -358,13 +372,18 @@ func runHostile(rc *core.RunCtx) {
 			for e := 0; e < nenv; e++ {
 				env := &hremote.Envelope{}
 				ntypes := simrt.G().Range(0, 2)
-				names := []string{"remote.TestMessage", "actor.PID", "no.such.Type"}
+				names := []string{"remote.TestMessage", "actor.PID", "no.such.Type", "evil/remote.TestMessage", "//actor.PID", "remote.TestMessage/", ""}
 				for i := 0; i < ntypes; i++ {
 					env.TypeNames = append(env.TypeNames, names[simrt.G().IntN(len(names))])
 				}
 				ntg := simrt.G().Range(0, 2)
 				for i := 0; i < ntg; i++ {
-					env.Targets = append(env.Targets, actor.NewPID(addrOf(2), targets[i%2]))
+					tid := targets[i%2]
+					if simrt.G().Bool(0.15) {
+						// address one of the node's own infrastructure actors
+						tid = []string{"stream/" + addrOf(1), "eventstream/1", "monitor/m"}[simrt.G().IntN(3)]
+					}
+					env.Targets = append(env.Targets, actor.NewPID(addrOf(2), tid))
 				}
 				nsn := simrt.G().Range(0, 2)
 				for i := 0; i < nsn; i++ {
@@ -390,7 +409,7 @@ func runHostile(rc *core.RunCtx) {
 					}
 					hm.typeIdx, hm.tgtIdx, hm.sndIdx = pick(len(env.TypeNames)), pick(len(env.Targets)), pick(len(env.Senders))
 					var data []byte
-					if hm.typeIdx >= 0 && int(hm.typeIdx) < len(env.TypeNames) && env.TypeNames[hm.typeIdx] == "actor.PID" {
+					if hm.typeIdx >= 0 && int(hm.typeIdx) < len(env.TypeNames) && strings.HasSuffix(env.TypeNames[hm.typeIdx], "actor.PID") {
 						data, _ = (&actor.PID{Address: "payload", ID: hm.key}).MarshalVT()
 					} else {
 						data, _ = (&hremote.TestMessage{Data: []byte(hm.key)}).MarshalVT()
@@ -399,7 +418,7 @@ func runHostile(rc *core.RunCtx) {
 					if undecodable {
 						data = []byte{0xff, 0xff, 0xff, 0x01}
 					}
-					hm.valid = hm.typeIdx >= 0 && int(hm.typeIdx) < len(env.TypeNames) && env.TypeNames[hm.typeIdx] != "no.such.Type" &&
+					hm.valid = hm.typeIdx >= 0 && int(hm.typeIdx) < len(env.TypeNames) && (env.TypeNames[hm.typeIdx] == "remote.TestMessage" || env.TypeNames[hm.typeIdx] == "actor.PID") &&
 						hm.tgtIdx >= 0 && int(hm.tgtIdx) < len(env.Targets) && !undecodable &&
 						(len(env.Senders) == 0 || (hm.sndIdx >= 0 && int(hm.sndIdx) < len(env.Senders)))
 					if hm.tgtIdx >= 0 && int(hm.tgtIdx) < len(env.Targets) {
